@@ -586,4 +586,29 @@ theorem fromBaseBE_cases (bits base : ℕ) (hb : 2 ≤ base) (ds : List ℕ) :
   simpa [fromBaseBE, hb'] using this
 
 
+theorem fromBaseBE_ok_iff (bits base : ℕ) (hb : 2 ≤ base) (ds : List ℕ) (l : List ℕ) :
+    fromBaseBE bits base ds = .ok l ↔
+      (∀ d ∈ ds, d < base) ∧ Canon bits l ∧ val l = Nat.ofDigits base ds.reverse := by
+  have hc := fromBaseBE_cases bits base hb ds
+  constructor
+  · intro h
+    rw [h] at hc
+    obtain ⟨c, r⟩ := hc
+    obtain ⟨r1, r2, _⟩ := (refBE_ok_iff bits base (by omega) ds 0 (val l)).mp r
+    refine ⟨r1, c, ?_⟩
+    rw [← r2, hornerFrom_eq]; simp
+  · rintro ⟨h1, h2, h3⟩
+    have hr : refBE bits base ds 0 = .ok (val l) :=
+      (refBE_ok_iff bits base (by omega) ds 0 (val l)).mpr
+        ⟨h1, by rw [hornerFrom_eq, h3]; simp, fun _ => h2.2.2⟩
+    cases hf : fromBaseBE bits base ds with
+    | error e => rw [hf] at hc; simp only at hc; rw [hr] at hc; cases hc
+    | ok l' =>
+      rw [hf] at hc
+      obtain ⟨c, r⟩ := hc
+      rw [hr] at r
+      have : val l = val l' := by injection r
+      rw [canon_ext bits l l' h2 c this]
+
+
 end Ruint.Radix
